@@ -796,6 +796,16 @@ def check(ctx):
                               "epoch", adv_idx and idx < min(adv_idx),
                detail=f"end_warmup at {idx}, advance_epoch at {adv_idx}")
 
+    einit_f = method(repo, eng, "__init__")
+    rei_f = evaluate(repo, einit_f)
+    em_st = [val for loc, val, _, cond in rei_f.stores
+             if loc == ("a", n("self"), "_epoch_manager")]
+    ctx.ob("C07.R1", einit_f, "every engine drives its own EpochManager, created from the "
+                              "epoch configs it was given (a manager shared with the builder "
+                              "or another engine would share the epoch pointer and the clock)",
+           len(em_st) == 1 and is_call(em_st[0], "liesel.goose.epoch.EpochManager")
+           and em_st[0][2] == (n("epoch_configs"),),
+           detail=short(em_st[0], 80) if em_st else "no store", stmt="engine epoch manager")
     # ------------------------------------------------------------- R6 / R7 dispatch
     dispatch_obligations(ctx, "C07.R6", "C07.R7")
 
@@ -816,5 +826,6 @@ def check(ctx):
                           "manager has more", ok)
 
     # ---- shared mechanisms: the neighbour's rules run as obligations of this property
+    ctx.include("C16", "C07.R9", only=['C16.R4'])
     ctx.include("C12", "C07.R9", only=['C12.R3'])
-    ctx.rule("R9", "shared mechanisms, run as obligations of this property: the history handed to tune is that epoch's recorded chain (C12.R3).")
+    ctx.rule("R9", "shared mechanisms, run as obligations of this property: the builder hands the engine the schedule (configs), and the chunk length, it validated (C16.R4); the history handed to tune is that epoch's recorded chain (C12.R3).")
